@@ -309,7 +309,7 @@ struct RealNumberInfo<Number_T, 4U> {
     static constexpr const SizeT32 ExponentMask = 0x7F800000U;
     static constexpr const SizeT32 MantissaMask = 0x7FFFFFU;
     static constexpr const SizeT32 LeadingBit   = 0x800000U;
-    static constexpr const SizeT32 MaxCut       = 30U;
+    static constexpr const SizeT32 MaxCut       = 50U;
 };
 
 // double
